@@ -10,12 +10,18 @@ package wsrpc
 
 import (
 	"context"
+	"errors"
 	"fmt"
+	"strings"
+	"sync"
 	"testing"
 	"time"
 
+	"github.com/smartcontractkit/wsrpc/credentials"
 	"github.com/smartcontractkit/wsrpc/internal/message"
 	"github.com/smartcontractkit/wsrpc/peer"
+	"google.golang.org/protobuf/proto"
+	"google.golang.org/protobuf/types/known/structpb"
 )
 
 func vMultiBatch(seed uint64, n, steps int) {
@@ -92,6 +98,16 @@ func TestVerifC04(t *testing.T) {
 		out  string
 		spec string
 	}
+	// liveness of the OTHER peers while one peer misbehaves (own servers, before the batches load the machine)
+	vC04SlowPeer("reply")
+	vC04SlowPeer("call")
+	vC04DuplicateResponses(4)
+	if vThorough() {
+		for k := 0; k < 10; k++ {
+			vC04SlowPeer([]string{"reply", "call"}[k%2])
+			vC04DuplicateResponses(3 + r.Intn(3))
+		}
+	}
 	ch := make(chan res)
 	for b := 0; b < batches; b++ {
 		spec := fmt.Sprintf("%d %d %d", r.U64()%1000000007, n, steps)
@@ -106,4 +122,265 @@ func TestVerifC04(t *testing.T) {
 			vEmit(vCase{Class: "child", Fail: "multi-batch-crashed", Sig: "crash/" + x.spec, Info: map[string]interface{}{"spec": x.spec, "panic": vPanicLine(x.out)}})
 		}
 	}
+}
+
+// ---- one peer misbehaves, the others must not notice
+
+// vParkTr is a session transport whose Write parks (as a write pump does whose peer does not
+// drain its socket) while `park` is set: it signals `entered` and returns only when released
+// or when the caller's context ends, exactly like the real transports.
+type vParkTr struct {
+	read    chan []byte
+	mu      sync.Mutex
+	park    bool
+	entered chan struct{}
+	release chan struct{}
+	writes  [][]byte
+	onWrite func([]byte)
+}
+
+func vNewParkTr() *vParkTr {
+	return &vParkTr{read: make(chan []byte), entered: make(chan struct{}, 64), release: make(chan struct{})}
+}
+func (p *vParkTr) Read() <-chan []byte { return p.read }
+func (p *vParkTr) Close() error        { return nil }
+func (p *vParkTr) feed(frame []byte) error {
+	select {
+	case p.read <- frame:
+		return nil
+	case <-time.After(3 * time.Second):
+		return errWedged
+	}
+}
+func (p *vParkTr) Write(ctx context.Context, msg []byte) error {
+	p.mu.Lock()
+	park := p.park
+	p.mu.Unlock()
+	if park {
+		select {
+		case p.entered <- struct{}{}:
+		default:
+		}
+		select {
+		case <-p.release:
+		case <-ctx.Done():
+			return errors.New("[fake] could not write message, context is done")
+		}
+	}
+	p.mu.Lock()
+	p.writes = append(p.writes, append([]byte(nil), msg...))
+	cb := p.onWrite
+	p.mu.Unlock()
+	if cb != nil {
+		cb(msg)
+	}
+	return nil
+}
+
+// vC04Server: one real Server with two authenticated sessions A (parking transport) and B (answers
+// the server's calls at once unless the call's token starts with "silent")
+func vC04Server() (s *Server, keyA, keyB credentials.StaticSizedPublicKey, trA, trB *vParkTr, stop func()) {
+	s = NewServer()
+	s.RegisterService(vDesc(), &vImpl{})
+	keyA, keyB = vKey(21), vKey(22)
+	trA, trB = vNewParkTr(), vNewParkTr()
+	done := make(chan struct{})
+	s.connMgr.registerConnection(keyA, trA)
+	s.connMgr.registerConnection(keyB, trB)
+	go s.handleRead(keyA, trA, done)
+	go s.handleRead(keyB, trB, done)
+	trB.onWrite = func(b []byte) {
+		m := &message.Message{}
+		if proto.Unmarshal(b, m) != nil || m.GetRequest() == nil {
+			return
+		}
+		in := &message.Response{}
+		_ = proto.Unmarshal(m.GetRequest().GetPayload(), in)
+		if strings.HasPrefix(in.CallId, "silent") {
+			return
+		}
+		app, _ := proto.Marshal(&message.Response{CallId: in.CallId, Payload: in.Payload})
+		f := vFrame(&message.Message{Exchange: &message.Message_Response{Response: &message.Response{CallId: m.GetRequest().GetCallId(), Payload: app}}})
+		go func() {
+			select {
+			case trB.read <- f:
+			case <-done:
+			}
+		}()
+	}
+	return s, keyA, keyB, trA, trB, func() { close(done) }
+}
+
+// vC04Probe: what a healthy peer B and the application see of the server right now. A call B answers
+// at once must succeed, a call B does not answer must end at its own deadline, administrative calls
+// must return. The bounds are generous (seconds): a server blocked by another peer does not return at all.
+func vC04Probe(s *Server, keyB credentials.StaticSizedPublicKey, info map[string]interface{}) string {
+	type res struct {
+		err  error
+		took time.Duration
+	}
+	call := func(token string, d time.Duration) (res, bool) {
+		ch := make(chan res, 1)
+		go func() {
+			ctx, cancel := context.WithTimeout(context.Background(), d)
+			defer cancel()
+			start := time.Now()
+			out := &message.Response{}
+			err := s.Invoke(peer.NewCallContext(ctx, keyB), "Echo", vAppMsg(token, []byte("b"), ""), out)
+			if err == nil && out.CallId != token {
+				err = fmt.Errorf("foreign reply %q", out.CallId)
+			}
+			ch <- res{err, time.Since(start)}
+		}()
+		select {
+		case x := <-ch:
+			return x, true
+		case <-time.After(d + 2500*time.Millisecond):
+			return res{}, false
+		}
+	}
+	x, ok := call("prompt", 2*time.Second)
+	info["call_to_B_answered_at_once"] = fmt.Sprintf("returned=%v err=%v took=%v", ok, x.err, x.took)
+	if !ok {
+		return "call to a healthy peer (2 s deadline, answered at once) has not returned 2.5 s after its deadline"
+	}
+	if x.err != nil {
+		return fmt.Sprintf("call to a healthy peer which answers at once failed: %v after %v", x.err, x.took)
+	}
+	y, ok := call("silent", 300*time.Millisecond)
+	info["call_to_B_unanswered"] = fmt.Sprintf("returned=%v err=%v took=%v", ok, y.err, y.took)
+	if !ok {
+		return "call to another peer (300 ms deadline, not answered) has not returned 2.5 s after its deadline"
+	}
+	admin := make(chan struct{})
+	go func() { s.OpenConnections(); s.GetConnectedPeerPublicKeys(); close(admin) }()
+	select {
+	case <-admin:
+	case <-time.After(2 * time.Second):
+		info["admin"] = "blocked"
+		return "OpenConnections / GetConnectedPeerPublicKeys have not returned after 2 s"
+	}
+	return ""
+}
+
+// vC04SlowPeer: peer A does not drain its socket, so a write to A parks - the reply to a request A
+// sent ("reply"), or the request of a server call addressed to A ("call"). Meanwhile calls to B and
+// administrative calls must proceed.
+func vC04SlowPeer(variant string) {
+	s, keyA, keyB, trA, _, stop := vC04Server()
+	defer stop()
+	info := map[string]interface{}{"variant": variant, "slow_peer": "A: its transport's Write parks until released", "outcome": "ok"}
+	c := vCase{Class: "isolation/slow-peer-" + variant, Sig: "slow-peer/" + variant, Info: info}
+	trA.mu.Lock()
+	trA.park = true
+	trA.mu.Unlock()
+	cancelA := func() {}
+	switch variant {
+	case "reply":
+		app, _ := proto.Marshal(vAppMsg("fromA", []byte("a"), ""))
+		_ = trA.feed(vFrame(&message.Message{Exchange: &message.Message_Request{Request: &message.Request{Method: "Echo", CallId: "00000000-0000-4000-8000-0000000000a1", Payload: app}}}))
+	default:
+		ctx, cancel := context.WithTimeout(context.Background(), 20*time.Second)
+		cancelA = cancel
+		go func() {
+			_ = s.Invoke(peer.NewCallContext(ctx, keyA), "Echo", vAppMsg("toA", []byte("a"), ""), &message.Response{})
+		}()
+	}
+	select {
+	case <-trA.entered:
+		if msg := vC04Probe(s, keyB, info); msg != "" {
+			c.Fail = "slow-peer-blocks-other-peers/" + variant
+			info["outcome"] = msg
+		}
+	case <-time.After(3 * time.Second):
+		c.Fail = "write-to-peer-never-attempted/" + variant
+		info["outcome"] = "the write to A was not attempted within 3 s"
+	}
+	cancelA()
+	close(trA.release)
+	vEmit(c)
+}
+
+// vC04DuplicateResponses: peer A answers ONE server call with the same response frame n times, back
+// to back (the reply is slow to decode, so the copies arrive while the caller is still busy with the
+// first). Whatever that does to A's own call, calls to B and administrative calls must proceed and
+// no responder may stay parked.
+func vC04DuplicateResponses(n int) {
+	s, keyA, keyB, trA, _, stop := vC04Server()
+	defer stop()
+	info := map[string]interface{}{"copies": n, "outcome": "ok"}
+	c := vCase{Class: "isolation/duplicate-responses", Sig: fmt.Sprintf("dup-resp/%d", n), Info: info}
+	vals := make([]*structpb.Value, 150000)
+	for i := range vals {
+		vals[i] = structpb.NewNumberValue(float64(i))
+	}
+	big, _ := proto.Marshal(&structpb.ListValue{Values: vals})
+	fedAll := make(chan error, 1)
+	trA.onWrite = func(b []byte) {
+		m := &message.Message{}
+		if proto.Unmarshal(b, m) != nil || m.GetRequest() == nil {
+			return
+		}
+		f := vFrame(&message.Message{Exchange: &message.Message_Response{Response: &message.Response{CallId: m.GetRequest().GetCallId(), Payload: big}}})
+		go func() {
+			var err error
+			for k := 0; k < n && err == nil; k++ {
+				err = trA.feed(f)
+			}
+			fedAll <- err
+		}()
+	}
+	doneA := make(chan error, 1)
+	go func() {
+		ctx, cancel := context.WithTimeout(context.Background(), 5*time.Second)
+		defer cancel()
+		doneA <- s.Invoke(peer.NewCallContext(ctx, keyA), "Echo", vAppMsg("toA", nil, ""), &structpb.ListValue{})
+	}()
+	select {
+	case err := <-fedAll:
+		if err != nil {
+			info["feed"] = err.Error()
+		}
+	case <-time.After(5 * time.Second):
+		info["feed"] = "not all copies were taken"
+	}
+	if msg := vC04Probe(s, keyB, info); msg != "" {
+		c.Fail = "duplicate-responses-wedge-server"
+		info["outcome"] = msg
+	}
+	select {
+	case err := <-doneA:
+		info["call_to_A"] = fmt.Sprint(err)
+	case <-time.After(3 * time.Second):
+		info["call_to_A"] = "has not returned"
+	}
+	if c.Fail == "" {
+		// nobody may stay parked inside the server once the call to A is over
+		stuck := ""
+		ok := vC04Wait(2*time.Second, func() bool {
+			stuck = ""
+			for _, f := range vParked() {
+				if strings.Contains(f, "handleMessageResponse") || strings.Contains(f, "(*Server).Invoke") {
+					stuck = f
+				}
+			}
+			return stuck == ""
+		})
+		if !ok {
+			c.Fail = "duplicate-responses-wedge-server"
+			info["outcome"] = "a goroutine stays parked in " + stuck
+		}
+	}
+	vEmit(c)
+}
+
+func vC04Wait(d time.Duration, f func() bool) bool {
+	deadline := time.Now().Add(d)
+	for time.Now().Before(deadline) {
+		if f() {
+			return true
+		}
+		time.Sleep(2 * time.Millisecond)
+	}
+	return f()
 }
